@@ -269,6 +269,12 @@ func buildAdv(knobs []Knob) advTok {
 		symbols[len(symbols)-1] = strings.Repeat("(a*)*", 200)
 	case "type-mix":
 		ex = exprW(one, opVal(tStr(F1)), opBin(9))
+	case "union-mixed-contains": // a mixed set cannot be a literal, but it can be BUILT at evaluation time
+		ex = exprW(opVal(tSet(tInt(1))), opVal(tSet(tStr(F1))), opBin(16), opVal(tInt(2)), opBin(5))
+	case "union-mixed-eq":
+		ex = exprW(opVal(tSet(tInt(1))), opVal(tSet(tBytes([]byte{1}))), opBin(16), opVal(tSet(tBytes([]byte{1}), tInt(1))), opBin(4))
+	case "inter-mixed-length":
+		ex = exprW(opVal(tSet(tInt(1), tInt(2))), opVal(tSet(tDate(1))), opBin(16), opVal(tSet(tDate(1), tBool(true))), opBin(15), opUn(2), one, opBin(4))
 	case "deep-parens":
 		ops := [][]byte{opVal(tBool(true))}
 		for i := 0; i < 900; i++ {
